@@ -271,6 +271,10 @@ def r10(src, counts):
         if 'WriteBytesExt' in names:
             outl.append('use crate::shim::WriteBytesShim;')
         return '\n'.join(outl) + '\n'
+    def tobe(mo):
+        counts['R10.to_be_bytes'] += 1
+        return 'crate::u16_to_be_bytes(%s)' % mo.group(1)
+    src = re.sub(r'\b(\w+)\.to_be_bytes\(\)', tobe, src)
     src = re.sub(r'^use byteorder::\{?([^;}]*)\}?;\n', use, src, flags=re.M)
     return src
 
